@@ -564,4 +564,15 @@ theorem C03_quiescent_report_rests (k : TaskKey) (ev : Status) (c : Cond)
         rfl
     · exact hrest
 
+/-- **C09/C03** (table, true since fix D28): a resume request — `running` or `resuming` — takes a
+    task that is `pausing` (a with-items task whose items were in flight when the pause was
+    requested) back to `running`, whatever its items are doing; the task is not left pausing
+    behind a workflow that has resumed -/
+theorem tbl_resume_unpauses_pausing_task : ∀ (req : Status) (hasItems active incomplete : Bool),
+    (req = .running ∨ req = .resuming) →
+    -- the combinations of the three item flags that a state can produce
+    (hasItems = false → active = false ∧ incomplete = false) → (active = true → incomplete = true) →
+      tkOnWorkflowEvent .pausing req hasItems active incomplete = .ok .running := by
+  decide +kernel
+
 end Orq
